@@ -182,7 +182,24 @@ class Impl:
         return "commits %d %s" % (n, enc_pairs(pairs))
 
 
-def execute(kind, template, toks, attrs, root):
+def git_cli_checks(path, bare):
+    """`git status --porcelain` must be empty (non-bare) and `git fsck --strict` clean."""
+    problems = []
+    env = dict(os.environ, GIT_CONFIG_NOSYSTEM="1", HOME=path, GIT_OPTIONAL_LOCKS="0")
+    if not bare:
+        p = subprocess.run(["git", "-C", path, "status", "--porcelain"], capture_output=True, text=True, env=env)
+        if p.returncode != 0:
+            problems.append("git status failed: " + p.stderr.strip()[:200])
+        elif p.stdout.strip():
+            problems.append("git status not clean: " + p.stdout.strip()[:200])
+    p = subprocess.run(["git", "-C", path, "fsck", "--strict", "--no-dangling"], capture_output=True, text=True, env=env)
+    out = (p.stdout + p.stderr).strip()
+    if p.returncode != 0:
+        problems.append("git fsck: " + out[:300])
+    return problems
+
+
+def execute(kind, template, toks, attrs, root, git_every_step=False):
     """Run a history template on a fresh store of `kind`.
 
     template ops (selectors resolved here, per back end):
@@ -232,6 +249,11 @@ def execute(kind, template, toks, attrs, root):
         if impl.mkind != "vdir":
             lines.append("commits | " + impl.commits())
 
+    def gitcheck():
+        if kind in ("bare-disk", "tree"):
+            for pr in git_cli_checks(impl.path, kind == "bare-disk"):
+                impl.notes.append("C09:" + pr)
+
     audit()
     for op in template:
         if op[0] == "put":
@@ -276,6 +298,10 @@ def execute(kind, template, toks, attrs, root):
                         enc_pairs([("?foreign", bogus)]), enc_pairs(new_sym), obs))
             continue
         audit()
+        if git_every_step:
+            gitcheck()
+    if not git_every_step:
+        gitcheck()
     notes = impl.notes
     return lines, notes
 
